@@ -210,8 +210,12 @@ func c11ObserveInner(st *pxStore, p *posix.Posix, key string, ctxm map[string]st
 	if err != nil {
 		fmt.Fprintf(&b, "GET:%s\n", errClassAPI(err))
 	} else {
-		body, rerr := io.ReadAll(get.Body)
-		get.Body.Close()
+		var body []byte
+		var rerr error
+		if get.Body != nil { // a directory object is answered without a body
+			body, rerr = io.ReadAll(get.Body)
+			get.Body.Close()
+		}
 		fmt.Fprintf(&b, "GET:len=%d sha=%s readerr=%v clen=%d etag=%s ct=%s meta=%v tagcount=%v\n", len(body), hashS(body), rerr, getI(get.ContentLength), getS(get.ETag), getS(get.ContentType), get.Metadata, i32v(get.TagCount))
 		// internal consistency: size, etag and body must describe one object
 		if getI(get.ContentLength) != int64(len(body)) {
@@ -316,7 +320,7 @@ var rePath = regexp.MustCompile(`"?/[^ :"]+"?`)
 func C11(r *ck.Run) {
 	requireInstrumented()
 	r.Level = "fault_enumeration"
-	r.Rule("for every victim operation (PutObject new / overwrite / nested / with tags / with tags+legal hold+retention / on a Suspended bucket over a version beside a preserved null version / of a directory object that exists, CopyObject, UploadPart re-upload, CompleteMultipartUpload new / overwrite, DeleteObject plain / nested with parent pruning / by version id, PutBucketVersioning) × storage configuration {O_TMPFILE, named temp} × {xattr, sidecar} × {unversioned, versioning enabled}: the process is killed before EVERY file-system step of the operation (the logical thread is frozen before step i, its file descriptors are closed, deferred Go code does not reach the file system), a new backend instance is started on the same storage and everything the API shows about the key is compared with the complete previous and the complete new state (an interrupted multipart completion that left the previous state must be repeatable); distinct = (configuration, victim, crash point)")
+	r.Rule("for every victim operation (PutObject new / overwrite / nested / with tags / with tags+legal hold+retention / on a Suspended bucket over a version beside a preserved null version / of a directory object that exists, CopyObject, UploadPart re-upload, CompleteMultipartUpload new / overwrite, DeleteObject plain / nested with parent pruning / by version id, PutBucketVersioning) × storage configuration {O_TMPFILE, named temp} × {xattr, sidecar} × {unversioned, versioning enabled}: the process is killed before EVERY file-system step of the operation (the logical thread is frozen before step i, its file descriptors are closed, deferred Go code does not reach the file system), a new backend instance is started on the same storage and everything the API shows about the key is compared with the complete previous and the complete new state (an interrupted multipart completion that left the previous state must be repeatable; the key can be uploaded again and the bucket can be emptied and deleted through the API, and every crash point is run a second time to empty and delete the bucket right after the crash, without the later upload); distinct = (configuration, victim, crash point)")
 	r.Assume("a killed process loses its file descriptors and runs no deferred code; page-cache contents survive (process crash, not power loss); single syscalls are atomic")
 	cfgs := []pxCfg{{}, {NoTmp: true}, {Versioning: true}, {NoTmp: true, Versioning: true}}
 	if r.Thorough() {
@@ -460,6 +464,15 @@ func c11RunVictim(r *ck.Run, st *pxStore, v c11Victim) {
 		if msg := c11EmptyAndDelete(st); msg != "" {
 			det["cleanup_error"] = msg
 			r.Violation(ck.JoinSig("crash", v.Name, metaClass(st.Cfg), "bucket-cannot-be-emptied-and-deleted:"+strings.SplitN(msg, ":", 2)[0]), det)
+		}
+		// the same right after the crash, without a later upload of the key that would put the leftovers to use
+		prep()
+		if xk2, _ := run(i); len(xk2.Killed) == 0 {
+			ck.Fatal("crash point %d of %q was not reached the second time", i, v.Name)
+		}
+		if msg := c11EmptyAndDelete(st); msg != "" {
+			det["cleanup_error"] = msg
+			r.Violation(ck.JoinSig("crash", v.Name, metaClass(st.Cfg), "bucket-cannot-be-emptied-and-deleted-right-after-the-crash:"+strings.SplitN(msg, ":", 2)[0]), det)
 		}
 	}
 	_ = c11EmptyAndDelete
